@@ -59,7 +59,8 @@ static void walk (int format, int ch, int rate, int mode, int steps)
 			if (vh_rint (40) == 0) tg = F + 1 + vh_rint (3) ; if (vh_rint (40) == 0) tg = -1 - vh_rint (3) ;
 			if (tg > F + 4) tg = F ;
 			base = wh == 0 ? 0 : wh == 1 ? pos : F ; off = tg - base ;
-			q = sf_seek (s, off, wh == 0 ? SEEK_SET : wh == 1 ? SEEK_CUR : SEEK_END) ;
+			{	static const int quals [] = { 0, 0, SFM_READ, SFM_RDWR } ; int ql = quals [vh_rint (4)] ; if (wh != 0 && ql == SFM_RDWR) ql = SFM_READ ;	/* whence may carry a mode qualifier (SFM_RDWR only with SEEK_SET); on a read handle all of them mean the read pointer */
+				q = sf_seek (s, off, (wh == 0 ? SEEK_SET : wh == 1 ? SEEK_CUR : SEEK_END) | ql) ; }
 			vh_stat ("seeks", 1) ;
 			if (q == tg && tg >= 0 && tg <= F) { pos = tg ; vh_stat ("seeks_ok", 1) ; }
 			else if (q == -1)
